@@ -285,7 +285,7 @@ SEQ_ATTRS = ("co_cellvars", "co_freevars", "co_varnames", "co_names", "co_consts
 def seq_like(x):
     if isinstance(x, Sym) and x.kind in ("tuple", "list", "str", "bytes"):
         return True
-    if isinstance(x, Op) and x.op in ("concat", "slice", "comp", "fstring", "strformat"):
+    if isinstance(x, Op) and x.op in ("concat", "slice", "comp", "fstring", "strformat", "bytesof", "Mult"):
         return True
     if isinstance(x, Op) and x.op == "attr" and x.args[1] in SEQ_ATTRS:
         return True
@@ -323,7 +323,7 @@ def binop(op, a, b):
         if repr(a.cond) == repr(b.cond):
             return phi(a.cond, binop(op, a.a, b.a), binop(op, a.b, b.b))
         return Op(t.__name__, a, b)
-    if isinstance(a, (str, bytes, tuple, list)) or isinstance(b, (str, bytes, tuple, list)):
+    if isinstance(a, (str, bytes, bytearray, tuple, list)) or isinstance(b, (str, bytes, bytearray, tuple, list)):
         if t is ast.Add and isinstance(a, tuple) and isinstance(b, tuple):
             return a + b
         return Op("concat" if t is ast.Add else t.__name__, a, b)
@@ -334,6 +334,8 @@ def binop(op, a, b):
     if t is ast.Sub:
         return add(a, b, -1)
     if t is ast.Mult:
+        if seq_like(a) or seq_like(b):
+            return Op("Mult", a, b)  # sequence repetition
         return mul(a, b)
     if t is ast.LShift and isinstance(b, int):
         return mul(a, 1 << b)
@@ -1191,6 +1193,13 @@ class Spec(object):
                 return v
         if f is bool and len(args) == 1 and is_sym(args[0]):
             return Op("bool", args[0])
+        if f in (bytearray, bytes) and len(args) == 1 and not kw and isinstance(args[0], (list, tuple)) and any(is_sym(x) for x in args[0]) \
+                and not any(isinstance(x, Top) for x in args[0]):
+            return Op("bytesof", *args[0])  # a bytes object built from (partly symbolic) byte values
+        if f is divmod and len(args) == 2 and is_sym(args[0]) and isinstance(args[1], int) and not isinstance(args[1], bool) and args[1] > 0 \
+                and not isinstance(args[0], Top):
+            q = Op("floordiv", args[0], args[1])
+            return (q, add(args[0], mul(q, -args[1])))
         if f is ord and len(args) == 1 and is_sym(args[0]):
             v = args[0]
             if isinstance(v, Sym) and v.kind == "bytes" and v.info and v.info.get("n") == 1:
